@@ -50,26 +50,29 @@ impl<C: Cursor> Cursor for ConcatenatingCursor<C> {
         let mut left = 0usize;
         let mut right = self.cursors.len() - 1;
 
+        // Lower-bound search for the first cursor whose last key is at or after the sought key.
         while left < right {
-            let mut mid = (left + right) / 2;
-            self.reposition(mid)?;
+            let mid = (left + right) / 2;
+            // Probe mid's last key, walking down over empty cursors, but not below left.
+            let mut probe = mid;
+            self.reposition(probe)?;
             self.cursors[self.position].seek_to_last()?;
             self.cursors[self.position].prev()?;
-            while mid > left && self.cursors[self.position].key().is_none() {
-                mid -= 1;
-                self.reposition(mid)?;
+            while probe > left && self.cursors[self.position].key().is_none() {
+                probe -= 1;
+                self.reposition(probe)?;
                 self.cursors[self.position].seek_to_last()?;
                 self.cursors[self.position].prev()?;
             }
-            if mid == left {
-                break;
-            }
-            // SAFETY(rescrv):  We have a loop invariant above that goes until is_some or the
-            // conditional right above us.
-            if self.cursors[self.position].key().unwrap() >= kref {
-                right = mid;
-            } else {
-                left = mid + 1;
+            match self.cursors[self.position].key() {
+                // Everything after probe is past the key.
+                Some(last) if last >= kref => {
+                    right = probe;
+                }
+                // Everything in left..=mid is empty or before the key.
+                _ => {
+                    left = mid + 1;
+                }
             }
         }
         self.reposition(left)?;
